@@ -37,6 +37,17 @@ impl<'de> de::Visitor<'de> for DepthProbe {
         }
         Ok(())
     }
+
+    fn visit_enum<A: de::EnumAccess<'de>>(self, data: A) -> std::result::Result<(), A::Error> {
+        unsafe {
+            // on '{' A is exactly VariantAccess<'_, Read<'_>>
+            let va = &*(&data as *const A as *const VariantAccess<'static, Read<'static>>);
+            SEEN = va.de.remaining_depth;
+            CALLS = CALLS.wrapping_add(1);
+        }
+        core::mem::forget(data);
+        Ok(())
+    }
 }
 
 #[derive(Clone, Copy)]
@@ -45,6 +56,7 @@ enum Entry {
     Seq,
     Map,
     Struct,
+    Enum,
 }
 
 /// C01 M-depth (serde): entering a container through `entry` with an arbitrary budget d hands
@@ -64,6 +76,7 @@ fn depth_step(entry: Entry, text: &'static [u8]) {
         Entry::Seq => de::Deserializer::deserialize_seq(&mut de, DepthProbe),
         Entry::Map => de::Deserializer::deserialize_map(&mut de, DepthProbe),
         Entry::Struct => de::Deserializer::deserialize_struct(&mut de, "", &[], DepthProbe),
+        Entry::Enum => de::Deserializer::deserialize_enum(&mut de, "", &[], DepthProbe),
     };
     assert_eq!(de.remaining_depth, d);
     if d == 1 {
@@ -100,6 +113,7 @@ depth_harness!(m_depth_seq, Entry::Seq, b"[]");
 depth_harness!(m_depth_map, Entry::Map, b"{}");
 depth_harness!(m_depth_struct_seq, Entry::Struct, b"[]");
 depth_harness!(m_depth_struct_map, Entry::Struct, b"{}");
+depth_harness!(m_depth_enum, Entry::Enum, b"{}");
 
 // ---- models ------------------------------------------------------------------------------------
 
